@@ -200,7 +200,8 @@ def run(ctx):
         legs = {"repetitions": "evaluations", "rebuilds": "rebuilds", "reloads": "reloads", "exportnetwork-files": "networkfiles",
                 "histories": "histories", "interleaved-formats": "interleaves", "boundary-resaves": "boundaries",
                 "shared-writer-saves": "sharedwrites", "cold-exportnetwork-files": "coldfiles",
-                "extreme-enum-indexes": "extremeenums"}
+                "extreme-enum-indexes": "extremeenums",
+                "foreign-activity-between-exports": "foreignacts"}
         any_new = any(not any(o["signature"] == "c15-" + k for o in ctx.known_open) for s_ in summaries.values() for k in s_["propfail"])
         for leg, key in sorted(legs.items()):
             for procs, s_ in sorted(summaries.items()):
@@ -236,6 +237,7 @@ def run(ctx):
         "history_comparisons": sum(s.get("histories", 0) for s in summaries.values()),
         "shared_writer_saves": sum(s.get("sharedwrites", 0) for s in summaries.values()),
         "cold_export_network_files": sum(s.get("coldfiles", 0) for s in summaries.values()),
+        "foreign_activity_comparisons": sum(s.get("foreignacts", 0) for s in summaries.values()),
         "extreme_enum_index_comparisons": sum(s.get("extremeenums", 0) for s in summaries.values()),
         "boundary_resave_comparisons": sum(s.get("boundaries", 0) for s in summaries.values()),
         "cases_written": written_total, "cases_compared_by_driver": driver_total,
@@ -251,7 +253,9 @@ def run(ctx):
                 "1/2/3/4/8/16 (every file against ExportBus of its bus), histories (build, read, then Node.UpdateID / UpdateName / "
                 "Bus.UpdateName / remove+re-add / Message.UpdateID / SetStaticCANID / priority / renames ... with exports, String() "
                 "and getter calls between every two changes) against a fresh build with the same changes and no reads and against "
-                "the model's own reload, and the same specification across processes started with GOMAXPROCS=1,2,3,4,8,16; every "
+                "the model's own reload, exports before / after unrelated library activity (generated foreign DBC texts - own and "
+                "neighbouring exports, unchanged or perturbed per section: foreign NS_ symbols, attributes, value tables, comments, nodes, "
+                "duplicated / dropped / truncated lines - handed to ImportDBCFile, an independent copy loaded and exported), and the same specification across processes started with GOMAXPROCS=1,2,3,4,8,16; every "
                 "case (and every post-history state) also compared with the Coq model under three oracles; non-trivial = distinct case "
                 "(hash of its Markdown + DBC) in which at least one bus lists two definitions / messages with a tied sort key",
         "distribution": hist,
